@@ -9,6 +9,7 @@ import Gengo.Driver.Order
 import Gengo.Driver.ImportBoss
 import Gengo.Driver.SetGen
 import Gengo.Driver.Assemble
+import Gengo.Driver.RawNamer
 open Gengo Gengo.Proto
 
 /-- state of the stateful components (one history at a time per component) -/
@@ -24,6 +25,7 @@ def dispatch (s : DState) (f : List Str) : DState × Str :=
   | c :: rest =>
     if c = str "tags" then (s, Driver.Tags.handle rest)
     else if c = str "json" then (s, Driver.JsonTag.handle rest)
+    else if c = str "raw" then (s, Driver.RawNamer.handle rest)
     else if c = str "asm" then (s, Driver.Assemble.handle rest)
     else if c = str "ord" then (s, Driver.Order.handle rest)
     else if c = str "nm" then (s, Driver.Namer.handle rest)
